@@ -782,9 +782,11 @@ def _format_italics(collection):
 
 def _remove_spaces_at_end_of_the_line(collection):
     for idx, node in enumerate(collection):
+        # a row ends at a line break, and where the caption is repositioned
         if (
             idx > 0
-            and node._type == _InstructionNode.BREAK
+            and node._type in (
+                _InstructionNode.BREAK, _InstructionNode.CHANGE_POSITION)
             and collection[idx - 1].is_text_node()
             and collection[idx - 1].text
         ):
